@@ -51,7 +51,18 @@ def run(ctx):
     ctx.drive("c05", None, of, args=[nr, lo, hi])
     ctx.judge("Judge_c05", "Judge_c05.cfg", of, label="rand", chunk=1000)
     ctx.note("random texts: %d" % ctx.count_lines(of))
-    ctx.coverage_extra["exhaustive_parts"] = alphabets
+    # second half of the property: positions quoted by parse errors. Corpus: every single-token mutation
+    # of 24 base statements (spec/c04/Gen_c04w.tla, part "mut") - almost all of them fail to parse.
+    ctx.stage_specs("c05", "c04")
+    cfgname = "Gen_c04w_mut.cfg"
+    open(ctx.path("spec", cfgname), "w").write('SPECIFICATION Spec\nCONSTANTS\n  N = 1\n  Part = "mut"\n  Sizes = {64}\nCHECK_DEADLOCK FALSE\n')
+    cf = ctx.path("cases_errpos.ndjson")
+    ctx.tlc("Gen_c04w", cfgname, env={"CASE_FILE": cf}, workers=2)
+    of = ctx.path("obs_errpos.ndjson")
+    ctx.drive("c05err", cf, of)
+    ctx.judge("Judge_c05e", "Judge_c05e.cfg", of, label="errpos", chunk=8000)
+    ctx.note("parse-error positions: %d mutated statements" % ctx.count_lines(of))
+    ctx.coverage_extra["exhaustive_parts"] = alphabets + ["errpos"]
     ctx.coverage_extra["sampled_parts"] = ["rand"]
     ctx.exhaustive = False
     return vp.case_finder
